@@ -4,6 +4,14 @@ sys.path.insert(0, os.path.dirname(os.path.abspath(__file__)))
 import common
 
 
+def _is_impl_exception(path):
+    import json
+    try:
+        return json.load(open(path))['replay'].get('kind') == 'impl-exception'
+    except Exception:
+        return False
+
+
 def main():
     ap = argparse.ArgumentParser()
     ap.add_argument('prop')
@@ -13,11 +21,27 @@ def main():
     seed = int(os.environ.get('VERIF_SEED', '20260930'))
     mod = importlib.import_module('props.%s' % a.prop.lower())
     chk = common.Check(a.prop, a.tier, seed)
+    import linkgen
     try:
-        if a.replay:
+        if a.replay and _is_impl_exception(a.replay):
+            import json
+            call = json.load(open(a.replay))['replay']['call']
+            common.quiet_trackpy(); chk.coq()
+            with linkgen.size_limit(linkgen.LIMIT):
+                msg = linkgen.replay_impl_call(call)
+            chk.count(('impl-exception', call), True)
+            print('replay: %s %s' % (call['fn'], 'raised ' + msg if msg else 'returned normally'))
+            if msg:
+                chk.violation('implementation raised: ' + msg.split('(')[0], '%s raised %s on a valid input' % (call['fn'], msg),
+                              dict(kind='impl-exception', call=call))
+        elif a.replay:
             mod.replay(chk, a.replay)
         else:
             mod.run(chk)
+    except linkgen.ImplError as e:
+        chk.count(('impl-exception', e.call), True)
+        chk.violation('implementation raised: ' + type(e.exc).__name__, '%s raised %r on a valid input (no result where the property requires one)' % (e.call['fn'], e.exc),
+                      dict(kind='impl-exception', call=e.call, traceback=traceback.format_exc()))
     except Exception:
         tb = traceback.format_exc()
         chk.violation('harness:exception', 'check crashed (correspondence cannot be established): ' + tb.splitlines()[-1],
